@@ -156,6 +156,33 @@ def satisfies(trace, cfg):
     return True
 
 
+def judge_commute_lines(opseq, cfg):
+    """the same commutation on the formatted lines (process column included): the lines of the filtered request are the lines of the
+    unfiltered request whose traces satisfy the filter."""
+    blob = build_stream(opseq)
+    f0 = PyKdebugParser()
+    configure(f0, (None, None, (), ()))
+    try:
+        trs = request(f0, blob, 'traces+process', tcodes())
+        f1 = PyKdebugParser()
+        configure(f1, (None, None, (), ()))
+        lines = list(f1.formatted_traces(io.BytesIO(blob), tcodes()))
+    except Exception as ex:
+        return (f'unfiltered-request-raised:{type(ex).__name__}', {'error': repr(ex)[:200]})
+    if len(lines) != len(trs):
+        return ('formatted-lines-not-one-per-trace', {'lines': len(lines), 'traces': len(trs)})
+    exp = [line for tr, line in zip(trs, lines) if satisfies(tr, cfg)]
+    f = PyKdebugParser()
+    configure(f, cfg)
+    try:
+        got = list(f.formatted_traces(io.BytesIO(blob), tcodes()))
+    except Exception as ex:
+        return (f'filtered-request-raised:{type(ex).__name__}', {'error': repr(ex)[:200]})
+    if got != exp:
+        return ('filtered-lines-differ-from-restricted-unfiltered', {'got': got[:3], 'expected': exp[:3]})
+    return None
+
+
 def judge_commute(opseq, cfg, as_tuple):
     blob = build_stream(opseq)
     f0 = PyKdebugParser()
@@ -265,7 +292,7 @@ class C13(Check):
             'the filter, also on streams with a 300-record call and with class lists that repeat an entry (the process a trace belongs to is the one its thread has when the trace is reported, read from the unfiltered run). (B) request histories: all sequences of <=3 requests over {traces, formatted_traces, callstacks} on one '
             'parser object x 11 streams (incl. samples before/after image announcements, a string id / thread name / new thread used before the record that announces it, dumps cut in the middle of operations) x class lists x subclass lists x '
             'tid/process {none, set} x {list, tuple}: each request equals the same request on a fresh parser; filter settings equal '
-            'and same type afterwards. (X) all sequences of <=2 (quick) / <=3 (thorough) operations over 12 kinds through which one thread depends on what another thread emitted (global string announced by a sibling and used by dlopen, a thread declared by its parent, a process renamed by another thread, a terminate record naming another thread) x tid {None,1,2,7} x process {None, static name, declared name, declared pid, renamed name} x class lists {[], [4], [0x1f], [4,0x1f]} x subclass lists {[], [0x0302], [0x0702]}: same oracle. (B) is also run with all requests of a history MADE before any is read, then read in order and in reverse order. (C) the command-line tool: `traces --no-color` with every tid/process/class/subclass option combination prints the library\'s lines for the same settings. states = distinct configurations; transitions = requests; non-trivial = a non-empty filter.')
+            'and same type afterwards. (X) all sequences of <=2 (quick) / <=3 (thorough) operations over 12 kinds through which one thread depends on what another thread emitted (global string announced by a sibling and used by dlopen, a thread declared by its parent, a process renamed by another thread, a terminate record naming another thread) x tid {None,1,2,7} x process {None, static name, declared name, declared pid, renamed name} x class lists {[], [4], [0x1f], [4,0x1f]} x subclass lists {[], [0x0302], [0x0702]}: same oracle, on the traces and (subclass list empty) on the formatted lines with their process column. (B) is also run with all requests of a history MADE before any is read, then read in order and in reverse order. (C) the command-line tool: `traces --no-color` with every tid/process/class/subclass option combination prints the library\'s lines for the same settings. states = distinct configurations; transitions = requests; non-trivial = a non-empty filter.')
     assumptions = ('streams do not rely on table updates made by records of a class that a CLASS filter removes, other than the helper classes the statement names '
                    '(kernel trace records, lookups); records of OTHER THREADS that a thread / process filter would hide are relied on (sub-space X): the statement demands identical text',)
 
@@ -321,7 +348,7 @@ class C13(Check):
                 for sc in ((), (0x0302,), (0x0702,))]
         for opseq in seqs_:
             for cfg in cfgs:
-                bad = judge_commute(opseq, cfg, False)
+                bad = judge_commute(opseq, cfg, False) or (judge_commute_lines(opseq, cfg) if cfg[3] == () else None)
                 acc.case(nontrivial=cfg[0] is not None or cfg[1] is not None, transitions=2, state=h64((cfg, 'X')))
                 if bad:
                     acc.violation(bad[0] + ':cross-thread', {'kind': 'A', 'ops': [list(o) for o in opseq], 'cfg': [cfg[0], cfg[1], list(cfg[2]), list(cfg[3])], 'as_tuple': False},
